@@ -30,11 +30,14 @@ def gen(rng, tier):
         focus["kinds"] = ks
     if rng.random() < 0.5:
         focus["density"] = 0.5
-    return C.maybe_history(rng, C.forward_spec(rng, tier, focus), 0.3)
+    return C.gen_edit(rng, C.maybe_history(rng, C.forward_spec(rng, tier, focus), 0.3))
 
 
 def extra_candidates(spec):
-    return C.history_candidates(spec)
+    for c in C.history_candidates(spec):
+        yield c
+    for c in C.edit_candidates(spec):
+        yield c
 
 
 
@@ -51,6 +54,13 @@ def check_trace(res, tr):
     # the first call left, and an appended re-run (state reset, log kept) is judged by the same rule as a fresh run
     check_exempt = hist is None or hist["state"]
     off = getattr(tr, "log_offset", 0)
+    if hist is not None and not hist["state"] and getattr(tr, "first_snap", None) is not None:
+        # continuation: what the first call left is the previous state (it must not move backward) and counts as history
+        for tid in st.order:
+            ps = tr.first_snap["T"][tid][0]
+            prev[tid] = ps
+            if ps in (WORKING, FINISHED, 3):
+                started[tid] = True
     for tid in st.order:
         if st.exempt(tid):
             res.count("exempt_task")
@@ -123,11 +133,42 @@ def check_trace(res, tr):
                     break
 
 
+def check_edited_logs(res, tr, marks, absence_before):
+    """After absence steps were inserted into the finished logs, every task's state log still only moves forward
+    (WORKING may be shown as READY at absence steps, inserted or original)."""
+    absent_idx = set()
+    orig = 0
+    for i, mk in enumerate(marks):
+        if mk:
+            absent_idx.add(i)
+        else:
+            if orig in absence_before:
+                absent_idx.add(i)
+            orig += 1
+    for t in tr.ix.tasks:
+        log = [int(x) for x in t.state_record_list]
+        for i in range(1, len(log)):
+            a, b = log[i - 1], log[i]
+            if RANK.get(b, 2) < RANK.get(a, 2):
+                if a == WORKING and b == READY and i in absent_idx:
+                    continue
+                res.add("edit", "C01.after_insert_absence.log_moves_backward.%s_to_%s" % (SNAME.get(a), SNAME.get(b)),
+                        "after insert_absence_time_list(%s): state log of %s goes %s -> %s at index %d (%s)"
+                        % (tr.edit, t.ID, SNAME.get(a, a), SNAME.get(b, b), i, "inserted step" if marks[i] else ("after an inserted step" if marks[i - 1] else "original steps")), i)
+                return
+
+
 def run(spec):
     tr = C.run_forward(spec)
     res = C.base_result(tr)
     check_trace(res, tr)
     res.nontrivial = bool(tr.model["deps"]) and tr.rec.n_recorded >= 2
+    if spec.get("edit") and tr.out.ok:
+        tr.edit = spec["edit"]
+        o, marks = C.apply_edit(tr, spec["edit"])
+        res.count("edit_runs")
+        if o.ok and len(marks) == len(tr.project.cost_list):
+            check_edited_logs(res, tr, marks, tr.absence)
     return C.finish(res, tr)
 
 TECHNIQUE = "deterministic simulation: seeded model/schedule/absence search, live-state invariant at every phase of every step"
